@@ -333,6 +333,12 @@ func (c *drawCtx) poolIndex(group string, n int, neg []int, label string) (int, 
 		case 1:
 			c.prevIdx[group] = neg[p]
 			return neg[p], "rel:opposite"
+		case 2:
+			if group == "ed" && n%2 == 0 && n > 30 { // Edwards pool with torsion-shifted second half
+				q := (p + n/2) % n
+				c.prevIdx[group] = q
+				return q, "rel:differs_by_order2_point"
+			}
 		}
 	}
 	i := rapid.IntRange(0, n-1).Draw(c.t, label+"k")
@@ -428,6 +434,22 @@ func addEdwards(w *world, e *inst.Edwards) {
 		}
 		if !e.E.OnCurve(pool[i]) {
 			panic("c19: Edwards pool point off curve")
+		}
+	}
+	// second half of the pool: the same multiples shifted by the point of order two T = (0,-1), so that
+	// pairs differing by a point of even order (the exceptional inputs of the dedicated addition formulas)
+	// and points outside the prime-order subgroup occur; -(kB+T) = -kB+T
+	two := ref.EPt{X: new(big.Int), Y: new(big.Int).Sub(e.Q, big.NewInt(1))}
+	if e.E.OnCurve(two) {
+		n0 := len(pool)
+		for i := 0; i < n0; i++ {
+			q, ok := e.E.Add(pool[i], two)
+			if !ok || !e.E.OnCurve(q) {
+				panic("c19: Edwards torsion shift failed")
+			}
+			pool = append(pool, q)
+			ks = append(ks, ks[i])
+			neg = append(neg, n0+neg[i])
 		}
 	}
 	affT := e.Pkg.Types["PointAffine"]
